@@ -196,6 +196,56 @@ class T6809(T6502):
             return 1, None, 0
 
 
+class T6811(T6502):
+    """68HC11: bit-test branches carry the displacement behind a 3- or 4-byte operand part, the Y-indexed form behind a prebyte"""
+    name = '6811'
+    refs = ['BRSETD', 'BRCLRX', 'BRSETY', 'BNE', 'ABS', 'DATW']
+    gaps = [1, 120, 122, 123, 124, 125, 126, 127]
+
+    def head(self):
+        return ['\tcpu 6811', '\torg $%x' % self.org]
+
+    def src(self, kind, lab):
+        return {'BRSETD': 'brset 16,#1,' + lab, 'BRCLRX': 'brclr 4,x,#8,' + lab, 'BRSETY': 'brset 4,y,#4,' + lab, 'BNE': 'bne ' + lab, 'ABS': 'ldaa ' + lab,
+                'DATW': 'fdb ' + lab, 'ODD': 'fcb 1', 'NOP': 'nop'}[kind]
+
+    def gap(self, g):
+        return 'rmb %d' % g
+
+    def decode(self, mem, a, kind):
+        b = mem[a]
+        if kind == 'BRSETD':
+            if (b, mem[a + 1], mem[a + 2]) != (0x12, 16, 1):
+                raise ValueError('brset dir')
+            return 4, (a + 4 + s8(mem[a + 3])) & 0xffff, 0xffff
+        if kind == 'BRCLRX':
+            if (b, mem[a + 1], mem[a + 2]) != (0x1f, 4, 8):
+                raise ValueError('brclr idx')
+            return 4, (a + 4 + s8(mem[a + 3])) & 0xffff, 0xffff
+        if kind == 'BRSETY':
+            if (b, mem[a + 1], mem[a + 2], mem[a + 3]) != (0x18, 0x1e, 4, 4):
+                raise ValueError('brset idy')
+            return 5, (a + 5 + s8(mem[a + 4])) & 0xffff, 0xffff
+        if kind == 'BNE':
+            if b != 0x26:
+                raise ValueError('bne')
+            return 2, (a + 2 + s8(mem[a + 1])) & 0xffff, 0xffff
+        if kind == 'ABS':
+            if b == 0x96:
+                return 2, mem[a + 1], 0xffff
+            if b == 0xb6:
+                return 3, (mem[a + 1] << 8) | mem[a + 2], 0xffff
+            raise ValueError('ldaa opcode %02x' % b)
+        if kind == 'DATW':
+            return 2, (mem[a] << 8) | mem[a + 1], 0xffff
+        if kind == 'ODD':
+            return 1, None, 0
+        if kind == 'NOP':
+            if b != 0x01:
+                raise ValueError('nop')
+            return 1, None, 0
+
+
 class T8086(T6502):
     name = '8086'
     refs = ['JMP', 'DATW', 'JNZ']
@@ -236,8 +286,8 @@ class T8086(T6502):
             return 1, None, 0
 
 
-TARGETS = {'68000-pad1': T68k(1), '68000-pad0': T68k(0), '6502': T6502(), '6809': T6809(), '8086': T8086()}
-RANGE_LIMITED = {'BNE', 'BRA', 'JNZ', 'PCR'}      # short-only branches: a documented 'jump distance too big' error is legitimate
+TARGETS = {'68000-pad1': T68k(1), '68000-pad0': T68k(0), '6502': T6502(), '6809': T6809(), '8086': T8086(), '6811': T6811()}
+RANGE_LIMITED = {'BNE', 'BRA', 'JNZ', 'PCR', 'BRSETD', 'BRCLRX', 'BRSETY'}      # short-only branches: a documented 'jump distance too big' error is legitimate
 
 
 # ---- programs -------------------------------------------------------------------------------------
@@ -304,6 +354,62 @@ def render(case):
 SCOPED_T = {'6809': ('\tcpu 6809\n\torg $f0\n', {'JMP': 'jmp %s', 'DATW': 'fdb %s', 'ABS': 'lda %s', 'SBR': 'bra %s'}, 'nop', 'rmb 200'),
             '68000': ('\tcpu 68000\n\torg $7f00\n', {'JMP': 'jsr %s', 'DATW': 'dc.w %s', 'ABS': 'move.w %s,d0', 'SBR': 'bra.s %s'}, 'nop', 'ds.b 200'),
             '8086': ('\tcpu 8086\n\torg 100h\n', {'JMP': 'jmp %s', 'DATW': 'dw %s', 'SBR': 'loop %s'}, 'nop', 'db 200 dup (?)')}
+
+
+def maclocal():
+    """auto-sized references to labels that are local to a macro / REPT / IRP body, forward and backward over gaps around the size
+    limit, with the last expansion at the end of the source (nothing global moves behind it), plain and with the cross-reference and
+    listing options that make the assembler keep more per-symbol data"""
+    for t in sorted(SCOPED_T):
+        head, refs, nop, gap = SCOPED_T[t]
+        gapkw, gapn = gap.split()[0], gap.split()[1:]
+        for kind in sorted(refs):
+            for g in (2, 100, 124, 126, 128, 130, 200):
+                gl = '\t' + (gap.replace('200', str(g)).replace('20', str(g)))
+                for wrap in ('macro', 'rept', 'irp'):
+                    for direction in ('fwd', 'back'):
+                        for opts in ([], ['-C'], ['-L'], ['-C', '-L'], ['-u']):
+                            yield {'k': 'macloc', 't': t, 'kind': kind, 'gap': gl, 'wrap': wrap, 'dir': direction, 'opts': opts}
+
+
+def render_macloc(case):
+    head, refs, nop, gap = SCOPED_T[case['t']]
+    ref = '\t' + refs[case['kind']] % 'over'
+    body = [ref, case['gap'], 'over:\t' + nop] if case['dir'] == 'fwd' else ['over:\t' + nop, case['gap'], ref]
+    if case['wrap'] == 'macro':
+        l = ['m\tmacro'] + body + ['\tendm', '\t' + nop, '\tm']
+    elif case['wrap'] == 'rept':
+        l = ['\t' + nop, '\trept 1'] + body + ['\tendm']
+    else:
+        l = ['\t' + nop, '\tirp q,1'] + body + ['\tendm']
+    return head + '\n'.join(l) + '\n'
+
+
+def ev_macloc(case):
+    src = render_macloc(case)
+    d = src.replace('\n', ' / ') + ' | asl ' + ' '.join(case['opts'])
+    res = []
+    for extra in (0, 1):
+        core.fresh()
+        core.put('a.asm', src)
+        o, tr = run_asl(['-q'] + case['opts'] + ['a.asm'], extra)
+        ck = core.crashkind(o)
+        if ck:
+            return core.R(False, ck, 'crash/macloc/%s' % ck, '%s on %s' % (ck, d))
+        res.append((o.rc, core.get('a.p') if o.rc == 0 else None, tr[-1][3] if tr else None, len(tr)))
+    n = res[0][3] + res[1][3]
+    sig = '%s/%s/%s' % (case['wrap'], case['kind'], '+'.join(case['opts']) or 'plain')
+    if res[0][0] == 97:
+        return core.R(False, 'no-fixpoint', 'termination/macloc/' + sig, 'no convergence within %d passes on %s' % (MAXP, d), transitions=n)
+    if res[0][0] != res[1][0]:
+        return core.R(False, 'not-a-fixpoint', 'fixpoint/macloc/rc/' + sig, 'exit status %s without, %s with a forced extra pass on %s' % (res[0][0], res[1][0], d), transitions=n)
+    if res[0][0] != 0:
+        return core.R(True, 'macloc-rejected', nontrivial=False, transitions=n)
+    if res[0][1] != res[1][1]:
+        return core.R(False, 'not-a-fixpoint', 'fixpoint/macloc/code/' + sig, 'a forced extra pass changes the code file on %s' % d, transitions=n)
+    if res[0][2] != res[1][2]:
+        return core.R(False, 'not-a-fixpoint', 'fixpoint/macloc/symbols/' + sig, 'a forced extra pass changes symbol values on %s' % d, transitions=n)
+    return core.R(True, 'macloc-fixpoint-%d' % res[0][3], transitions=n, states=['macloc:%s' % res[0][2]])
 
 
 def scoped():
@@ -387,6 +493,7 @@ def subspaces(tier):
         for tn in TARGETS:
             subs.append(('skeleton+org-%s-2labels<=3' % tn, programs(tn, 2, 3, org=True)))
     subs.append(('sections-and-forward-declarations', scoped()))
+    subs.append(('labels-local-to-macro-and-repetition-bodies', maclocal()))
     subs.append(('golden-corpus-extra-pass', [{'k': 'corpus', 't': t} for t in corpus.tests()]))
     return subs
 
@@ -396,6 +503,8 @@ def describe(case):
         return case['t'] + ' with one forced extra pass'
     if case['k'] == 'scoped':
         return render_scoped(case).replace('\n', ' / ')
+    if case['k'] == 'macloc':
+        return render_macloc(case).replace('\n', ' / ') + ' | ' + ' '.join(case['opts'])
     return render(case).replace('\n', ' / ')
 
 
@@ -427,6 +536,8 @@ def evaluate(case):
         return ev_corpus(case)
     if case['k'] == 'scoped':
         return ev_scoped(case)
+    if case['k'] == 'macloc':
+        return ev_macloc(case)
     T = TARGETS[case['t']]
     src = render(case)
     core.fresh()
